@@ -1,7 +1,7 @@
 (* The translated TCP option walker (Gen/Generated.v: gen_parse_options, an index-based while loop with
    fuel) computes the same thing as the hand-written suffix-based model (Model/Options.v: parse_options). *)
 From Coq Require Import Lia.
-From PV Require Import Model.Prelude Model.Bits Model.Options Proofs.BitsP Proofs.OptionsP Gen.Generated.
+From PV Require Import Model.Prelude Model.Bits Model.Options Proofs.BitsP Proofs.OptionsP Gen.Generated_options.
 
 (* ------------------------------------------------------------------ *)
 (* Getting hold of the outer fixpoint of the generated term.           *)
